@@ -184,6 +184,29 @@ def directed_scenarios(tier):
         out.append(grow("eqtips-grow-outline-d1", "outline", d=1))
         out.append(grow("eqtips-grow-outline-d9-v1win", "outline", trunk=19, d=9, v1Window="alt"))
         out.append(grow("eqtips-grow-both-via-third", "both", nodes3=True, gapMs=400))
+    # both forks SPEND THE SAME pre-fork output (the miner payout of block 1): the lighter fork a, held by n0, at height
+    # spendA, the heavier fork b at spendB.  n0 must revert its spend exactly when it reorgs to b -- around the v2 allow /
+    # require heights, where the store's v1 element bookkeeping starts and stops (below require: v1 block + v1 transaction,
+    # from require on: v2 block + v2 transaction).  Fork points and spending heights at Allow-1, Allow, Require-1, Require, Require+1.
+    def spend(forkAt, spendA, spendB, lenA=None, lenB=None, win="all"):
+        top = max(spendA, spendB, forkAt + 1)
+        lenA = lenA or (max(spendA, forkAt + 1) - forkAt + 1)
+        lenB = lenB or (top - forkAt + 4)
+        sid = "spend-f%d-a%d-b%d-%s" % (forkAt, spendA, spendB, win or "v2")
+        return dict(id=sid, spend=dict(forkAt=forkAt, lenA=lenA, lenB=max(lenB, lenA + 3), spendA=spendA, spendB=spendB), branches=[],
+                    nodes=[dict(name="n0", branch="a"), dict(name="n1", branch="b")], edges=[[1, 0]], gapMs=0, announceMs=250, deadlineMs=15000,
+                    winner="b", shape=sid, announce="both", v1Window=win, **H)
+    A, R = H["allow"], H["require"]
+    grid = [(R - 2, R, R - 1), (R - 2, R - 1, R), (R - 3, R, R - 2), (A - 1, R, A), (R - 1, R, R + 1), (R - 2, R + 1, R - 1), (A, A + 1, R)]
+    if tier == "thorough":
+        grid += [(f, a, b) for f in (A - 1, A, R - 2, R - 1, R) for a in (A, R - 1, R, R + 1) for b in (A, R - 1, R, R + 1) if a > f and b > f and (f, a, b) not in grid]
+    for f, a, b in grid:
+        out.append(spend(f, a, b))
+    if tier == "thorough":
+        out.append(spend(R - 2, R, R - 1, win="alt"))
+        out.append(spend(R - 2, R, R - 1, win=""))
+        out.append(spend(R - 2, 0, R - 1))
+        out.append(spend(R - 2, R, 0))
     # heaviest is not longest: non-trivial initial difficulty, a 150-block fork mined ahead of schedule (difficulty
     # rises) is sufficiently heavier than a 165-block fork mined far behind schedule (difficulty falls)
     out.append(dict(id="heavier-shorter-150-165", hardTarget=True, shorterWinner=True,
